@@ -201,7 +201,9 @@ class Scanner:
             self.add_token("IDENTIFIER")
 
     def char(self):
-        while self.peek() not in ["'", '"'] and not self.at_end():
+        # The string ends with the same quotation mark that opened it.
+        quote = self.code[self.start]
+        while self.peek() != quote and not self.at_end():
             self.advance()
 
         if self.at_end():
